@@ -1223,7 +1223,8 @@ class Database:
                     i
                     for i, (ancestor, loc) in enumerate(zip(ancestors, lLocation))
                     if ancestor == anchorSerialNum and loc in locations
-                ]
+                ],
+                dtype=int,
             )
 
             # This could also be way more efficient if lLocation were a numpy array
